@@ -159,6 +159,31 @@ def rounding_decides(real, exact, pep):
     return False
 
 
+# Scales on which an agent may report what record_observation accepts as plain floats (nothing in the
+# recording or training API restricts them): a confidence as a probability, as a percentage, as a
+# log-probability (negative), as an un-normalised score just above 1; a latency in seconds, in milliseconds, or
+# measured against a skewed clock (negative).  Each entry maps (value, std) of the usual generators (confidence
+# in [0, 1], latency of a few seconds) onto the scale; all maps are exact on the dyadic grids used.
+CF_SCALES = {"prob": lambda c: c, "percent": lambda c: c * 100.0, "logprob": lambda c: c - 1.0 if c < 1.0 else -0.03125,
+             "over1": lambda c: c + 0.5, "neg": lambda c: -c * 4.0}
+CF_STD = {"prob": 1.0, "percent": 100.0, "logprob": 1.0, "over1": 1.0, "neg": 4.0}
+RT_SCALES = {"s": lambda t: t, "ms": lambda t: t * 1000.0, "skew": lambda t: t - 1.0, "zero": lambda t: t - t}
+RT_STD = {"s": 1.0, "ms": 1000.0, "skew": 1.0, "zero": 0.0}
+OTHER_SCALES = [(c, r) for c in CF_SCALES for r in RT_SCALES if (c, r) != ("prob", "s")]
+
+
+def rescale_pep(p, scale):
+    """a crafted fingerprint moved onto the (confidence scale, latency scale) [scale]"""
+    c, r = scale
+    return dict(p, cf=CF_SCALES[c](p["cf"]), cfs=p["cfs"] * CF_STD[c], rt=RT_SCALES[r](p["rt"]), rts=p["rts"] * RT_STD[r])
+
+
+def rescale_ops(ops, scale):
+    """every recorded observation of a public-API history moved onto [scale]"""
+    c, r = scale
+    return [[o[0], o[1], RT_SCALES[r](o[2]), CF_SCALES[c](o[3]), o[4]] if o[0] == "w_record" else o for o in ops]
+
+
 from datetime import timedelta
 
 CLOCK_BASE = datetime(2000, 1, 1)       # virtual time 0; earlier than the wall clock on purpose (see Model.imported_base)
@@ -238,12 +263,20 @@ class C17(Check):
             "second registered agent that is trained, inspected, flagged and marked updated): every later observation must "
             "be what it is without them, and a change of the agent's state by one of them is itself shown as a row the model "
             "cannot produce; ImmuneSystem() with every default (window 100, 10 observations, capacity 1000) driven until the "
-            "default window saturates; one history that fills the default memory capacity of 1000. "
+            "default window saturates; one history that fills the default memory capacity of 1000; "
+            "windows reported on other scales (one extra case in eight, from a generator of their own): confidence as a "
+            "percentage, a log-probability (< 0), a score just above 1, a negative score; latency in milliseconds, against a "
+            "skewed clock (< 0), identically 0 - as crafted fingerprints (trained, inspected at once, again under a flag / after "
+            "a false-alarm reset, then probed around the learned bounds) and as public-API and window histories with every "
+            "recorded observation on that scale; every successful training also shows what the learned baseline finds in the "
+            "window it was learned from. "
             "Exhaustive: every history of <=3 (quick) / <=4 (thorough) operations over an 8-letter alphabet with thresholds "
             "2/1, and every public-API history of <=5 / <=7 calls (good obs, bad obs, inspect, flag) on a window of size 2 "
             "after training, and every sequence of <=4 / <=5 maintenance operations between a remembered threat and its "
             "reappearance, and every sequence of <=3 / <=4 of mark_agent_updated, add_tolerated_violation, flag, two anomalies "
-            "under a recent_update rule (max CRITICAL) and a tolerated-violation rule. non-trivial = at least one "
+            "under a recent_update rule (max CRITICAL) and a tolerated-violation rule, and the grid confidence {-2, -5/16, 0, 1, "
+            "1.5, 90} x reported deviation {0, 2} x latency {-0.5, 0, 1500} x tolerance {2, 0} trained, inspected, flagged and "
+            "inspected three more times (crafted and through the public API). non-trivial = at least one "
             "inspection with a fingerprint that reaches the baseline check; distinct by case content")
     LEVEL_TEXT = ("Coq theorems over all profiles, fingerprints, thresholds, rule sets (arbitrary condition functions), "
                   "memories and operation histories about a hand-written model of BaselineProfile.check, TCell, "
@@ -251,7 +284,8 @@ class C17(Check):
                   "isolate/shutdown needs a current violation and a second signal; inside the baseline is always "
                   "NONE/IGNORE; an anergic watcher stays anergic and silent; Treg lowers by at most one step and never "
                   "touches CRITICAL (nor lowers twice across memory); the window just trained on is reported clean for every "
-                  "monotone rounding; every inspection judges the fingerprint of the current window (last window_size "
+                  "monotone rounding, on every scale (features are arbitrary rationals: each learned interval contains the "
+                  "window's own value), and stays clean in every later history that does not retrain; every inspection judges the fingerprint of the current window (last window_size "
                   "observations). The "
                   "response / can_suppress / downgrade tables are regenerated from the implementation on every run and "
                   "checked against the model inside Coq; the model is evaluated in Coq on every generated history the "
@@ -551,10 +585,17 @@ class C17(Check):
         case["ops"] = ops
         return case
 
-    def _history(self, rng, prof, rep, anergy, tol):
+    def _history(self, rng, prof, rep, anergy, tol, scale=None):
+        """scale (optional): the history starts with successful training on a window reported on that
+        (confidence, latency) scale, inspected at once; every later training window is on it too"""
         ops = []
         cur_prof = prof           # None when unknown (after training we probe instead)
         trained = None
+        if scale is not None:
+            trained = rescale_pep(self._train_pep(rng), scale)
+            ops += [["train", trained], ["inspect", trained]]
+            if rng.random() < 0.5:      # ... and again, under a flag / after a false-alarm reset / once more
+                ops += [rng.choice([["flag", True], ["resetnc"], ["inspect", trained], ["markupd"]]), ["inspect", trained], ["inspect", trained]]
         target = rng.choice([3, 5, 8, 11, 14])
         while len(ops) < target:
             k = rng.random()
@@ -604,6 +645,8 @@ class C17(Check):
                 ops.append(["tregeval", rng.randint(0, 3), rng.randint(0, 4)])
             else:
                 p = self._train_pep(rng) if rng.random() < 0.9 else None
+                if p is not None and scale is not None:
+                    p = rescale_pep(p, scale)
                 ops.append(["train", p])
                 if p is not None:
                     ops.append(["inspect", p])
@@ -766,7 +809,36 @@ class C17(Check):
                     "win": [3, 6], "cap": rng.choice([1000, 1000, 1000, 1, 2, 3, 0])}
             case["ops"] = self._history(rng, prof, rep, anergy, tol)
             out.append(self._sprinkle(rng, case))
+        # windows reported on other scales (percent / log-probability / >1 / negative confidences, millisecond /
+        # clock-skewed / zero latencies): the same three kinds of history, one case in eight on top of the n above,
+        # drawn from a generator of their own (the cases above are what they were before this class existed)
+        import random
+        rng2 = random.Random(f"C17:scales:{rng.random()}")
+        for _ in range(max(24, n // 8)):
+            out.append(self._scale_case(rng2))
         return out
+
+    def _scale_case(self, rng):
+        scale = rng.choice(OTHER_SCALES)
+        k = rng.random()
+        if k < 0.3:
+            case = self._api_case(rng)
+            case["ops"] = rescale_ops(case["ops"], scale)
+        elif k < 0.55:
+            case = self._window_case(rng)
+            case["ops"] = rescale_ops(case["ops"], scale)
+        else:
+            prof = rng.choice(self.PROFILES) if rng.random() < 0.5 else None
+            rep, anergy = rng.choice([3, 3, 2, 1]), rng.choice([5, 2, 1])
+            nn = rng.choice([10, 1, 2, 5])
+            tol = rng.choice([2.0, 2.0, 0.0, 1.0, 0.5, 3.0])
+            case = {"rules": self._rules(rng), "stab": rng.choice([100, 100, 2, 0, 5]),
+                    "tcell": ({"prof": prof, "rep": rep, "anergy": anergy} if prof is not None else None),
+                    "record": rng.random() < 0.9, "n": nn, "tmin": None, "tol": tol, "vt": rng.choice([0.5, 0.0]),
+                    "win": [3, 6], "cap": rng.choice([1000, 1000, 2, 1])}
+            case["ops"] = self._history(rng, prof, rep, anergy, tol, scale=scale)
+        case["scale"] = list(scale)
+        return self._sprinkle(rng, case)
 
     def exhaustive_cases(self):
         prof = self.PROFILES[0]
@@ -816,6 +888,24 @@ class C17(Check):
                 out.append({"rules": [[3, ["recent", 0]], [2, ["tolerated", 0], 3600]], "stab": 100,
                             "tcell": {"prof": prof, "rep": 2, "anergy": 1}, "record": True, "n": 10, "tmin": None, "tol": 2.0,
                             "vt": 0.5, "win": [3, 6], "ops": [list(o) for o in combo]})
+        # windows on every scale: confidence x latency x reported deviation x tolerance; trained, inspected at once,
+        # then flagged and inspected three more times (the streak that would make a rejected window CONFIRMED)
+        for cf in (-2.0, -0.3125, 0.0, 1.0, 1.5, 90.0):
+            for cfs in (0.0, 2.0):
+                for rt in (-0.5, 0.0, 1500.0):
+                    for tol in (2.0, 0.0):
+                        w = {"ol": 37.0, "ols": 0.25, "rt": rt, "rts": 0.0 if rt <= 0 else 25.0, "cf": cf, "cfs": cfs, "err": 0.0,
+                             "vh": 3, "sh": 2, "canary": None}
+                        out.append({"rules": [], "stab": 100, "tcell": None, "record": True, "n": 10, "tmin": None, "tol": tol,
+                                    "vt": 0.5, "win": [3, 6], "scale": ["grid", "grid"],
+                                    "ops": [["train", w], ["inspect", w], ["flag", True], ["inspect", w], ["inspect", w], ["inspect", w]]})
+        # ... and through the public API only: three observations around each confidence / latency, train, inspect x 3
+        for cf in (-2.0, -0.3125, 0.0, 1.0, 1.5, 90.0):
+            for rt in (-0.5, 0.0, 1500.0):
+                recs = [["w_record", "alpha beta", rt + d * 0.25, cf + d * 0.125, None] for d in (0, 1, -1)]
+                out.append({"rules": [], "stab": 100, "tcell": None, "record": True, "n": 10, "tmin": None, "tol": 2.0, "vt": 0.5,
+                            "win": [3, 3], "scale": ["grid", "grid"],
+                            "ops": recs + [["w_train"], ["w_inspect"], ["w_inspect"], ["flag", True], ["w_inspect"]]})
         # the shipped memory capacity (1000) is reached: one old signature, a feed of 999, then a confirmed threat
         # is stored at capacity (the least recently accessed goes) and recalled
         feed = [[1, 100 + i, 100 + i, 2, 2, i % 7] + ([[1 + i % 7]] if i % 3 == 0 else []) for i in range(999)]
@@ -1209,6 +1299,11 @@ class C17(Check):
                 ev["train"] = code
                 if code == 0:
                     exact_prof = exact_trained_bounds(pepd, case["tol"])
+                    # what the freshly learned baseline (the profile object as it is now) finds in the very
+                    # window it was learned from, by the harness's own reading of "violates the baseline"
+                    own = own_violations(snap_prof(immune.tcells[AID].profile), pepd)
+                    row += [88, len(own)] + own
+                    ev["own_after_train"] = own
             elif mo[0] == "flag":
                 immune.flag_agent(AID, "manual review" if mo[1] else "")
                 row = [2]
@@ -1489,7 +1584,10 @@ class C17(Check):
                 if (prev is not None and prev["op"] == "train" and prev.get("train") == 0 and prev["pep"] == pep
                         and trace["tol"] >= 0 and (pep["canary"] is None or pep["canary"] >= 0)):
                     if lvl != 0 or act != 0 or ev["viol"]:
-                        return Violation("C17/not-self-tolerant", f"op {i}: the window just trained on is reported {LEVELS[lvl]}/{ACTIONS[act]} violations={ev['viol']}")
+                        return Violation("C17/not-self-tolerant", f"op {i}: the window just trained on is reported {LEVELS[lvl]}/{ACTIONS[act]} violations={ev['viol']} "
+                                                                 f"(window: output_length={pep['ol']} response_time={pep['rt']} confidence={pep['cf']} error_rate={pep['err']}; "
+                                                                 f"baseline learned from it: output_length={b['prof']['ol']} response_time={b['prof']['rt']} "
+                                                                 f"confidence={b['prof']['cf']} error_rate_max={b['prof']['err']})")
                 reached_tcell = ev["viol"] != [9] and not desens
                 if reached_tcell:
                     last_unconfirmed = (ev["s1"] == 1 and ev["s2"] == 0)
@@ -1612,6 +1710,14 @@ class C17(Check):
                 ks.append("train=" + (SEL + ["raises"])[e["train"]])
             else:
                 ks.append("op=" + e["op"])
+        if case.get("scale"):
+            ks.append("scale:confidence=" + case["scale"][0])
+            ks.append("scale:latency=" + case["scale"][1])
+        for e in trace["events"]:
+            if e["op"] == "train" and e.get("train") == 0 and e.get("pep") is not None:
+                cfv, rtv = e["pep"]["cf"], e["pep"]["rt"]
+                ks.append("trained-window:confidence" + ("<0" if cfv < 0 else (">1" if cfv > 1 else "-in-[0,1]")))
+                ks.append("trained-window:latency" + ("<0" if rtv < 0 else ("=0" if rtv == 0 else ">0")))
         for c in case["rules"]:
             if c[1][0] in ("recent", "tolerated"):
                 ks.append("rule-reads-record:" + c[1][0])
